@@ -347,11 +347,12 @@ package mqtt
 //@   props C06 C11 C16
 //@   requires c != nil && c.sig != nil && c.Transport != nil && c.connClosed != nil && !closed(c.connClosed)
 //@   assigns c.connState; c.err
-//@   ensures[C06,C11,C16] sequence: evCount("(*BaseClient).serve") == 1 && evCount("Transport.Close") == 1 && evCount("(*BaseClient).connStateUpdate") == 1 &&
+//@   note the reconnect loop reads Err() as soon as Done() is closed: the error must be recorded first (C01, C09, C13)
+//@   ensures[C01,C06,C09,C11,C13,C16] sequence: evCount("(*BaseClient).serve") == 1 && evCount("Transport.Close") == 1 && evCount("(*BaseClient).connStateUpdate") == 1 &&
 //@        evArg[ConnState]("(*BaseClient).connStateUpdate", 0, 1) == StateClosed && evCount("close") == 1 && evArg[chan struct{}]("close", 0, 0) == c.connClosed &&
 //@        evIndex("(*BaseClient).serve", 0) < evIndex("Transport.Close", 0) && evIndex("Transport.Close", 0) < evIndex("(*BaseClient).connStateUpdate", 0) &&
 //@        evIndex("(*BaseClient).connStateUpdate", 0) < evIndex("close", 0)
-//@   ensures[C06,C16] err_stored: evCount("(*BaseClient).SetErrorOnce") == ite(guardVal(&c.connState) != StateDisconnected, 1, 0) &&
+//@   ensures[C01,C06,C09,C13,C16] err_stored: evCount("(*BaseClient).SetErrorOnce") == ite(guardVal(&c.connState) != StateDisconnected, 1, 0) &&
 //@        (evCount("(*BaseClient).SetErrorOnce") == 1 ==> evArg[error]("(*BaseClient).SetErrorOnce", 0, 1) != nil &&
 //@             evArg[error]("(*BaseClient).SetErrorOnce", 0, 1) == evRet[error]("(*BaseClient).serve", 0, 0) && evArg[*BaseClient]("(*BaseClient).SetErrorOnce", 0, 0) == c &&
 //@             evIndex("Transport.Close", 0) < evIndex("(*BaseClient).SetErrorOnce", 0) && evIndex("(*BaseClient).SetErrorOnce", 0) < evIndex("(*BaseClient).connStateUpdate", 0))
@@ -437,7 +438,7 @@ package mqtt
 //@   ensures[C05,C09] wire: evCount("(*BaseClient).write") <= 1 && (evCount("(*BaseClient).write") == 1 ==> evCount("(*pktConnect).Pack") == 1 &&
 //@        evArg[*pktConnect]("(*pktConnect).Pack", 0, 0).ClientID == clientID &&
 //@        seqEq(evBytes("(*BaseClient).write", 0, 1), seqOf(evRet[[]byte]("(*pktConnect).Pack", 0, 0))))
-//@   ensures[C06,C11,C16] reader: evCount("(*BaseClient).write") == 1 ==> evCount("go:(*BaseClient).Connect$1") == 1 &&
+//@   ensures[C01,C06,C09,C11,C16] reader: evCount("(*BaseClient).write") == 1 ==> evCount("go:(*BaseClient).Connect$1") == 1 &&
 //@        evIndex("go:(*BaseClient).Connect$1", 0) < evIndex("(*BaseClient).write", 0)
 //@   ensures[C17] handler_untouched: evCount("store:BaseClient.handler") == 0
 //@   ensures[C07] waiter: evCount("select") == 1 ==> fresh(evArg[chan *pktConnAck]("select", 0, 2)) && evIndex("(*BaseClient).write", 0) < evIndex("select", 0)
